@@ -109,6 +109,7 @@ fixed(['C01', 'C08', 'C02'], '5132c2b', 'trivialHeuristic()/propagatePseudoobj()
 fixed(['C08'], '6b111dc', 'MultiAggregationPS added obj*const/a to the objective offset with the coefficient of the minimization form: for a maximization LP reduced optimum + getObjoffset() != original optimum (C08 objoffset.(okay|vanished):{...MultiAggregation...}; a known finding until the last hours)')
 fixed(['C08'], '40774d1', 'removeEmpty() fixed an empty column at a bound although a row singleton had made its bounds contradictory: the simplifier "solved" an infeasible LP outright (VANISHED), e.g. min -4y s.t. 8x-9y=-8, 4x-6y>=9, x>=2, y>=0 (findings/C08_vanished_infeasible.lp; C08 verdict.VANISHED:{}; a known finding until the last hours)')
 fixed(['C08', 'C01', 'C09'], '5c435cd', 'AggregationPS::execute() swapped the basis status to the aggregated variable without moving the dual of the aggregated row (postsolved r != c - A^T y; C08 postsolve.redcost.*:{...Aggregation...}, C01/C09 cert.redcost:{}+needs{simplifier}) and swapped whenever a FIXED variable had one differing bound, whatever the sign of its reduced cost (rcsign/compl-col, XMAISM exceptions); 52 of 58 violation events of a 6000-case C08 run; known findings until the last hours')
+fixed(['C13'], 'a6cf8d4', 'the LP file reader stored IEEE infinities for literals with a huge exponent (atof overflow): `4.0e+011110 <= x0` gave the lower bound inf next to the upper bound 1e100 and optimize() threw XMAISM14 (C13 lp-real:optimize-exception:soplex::SPxInternalCodeException; found by the libFuzzer stage in the last hours)')
 
 # ------------------------------------------------------------------ open findings
 UND = r'(ABORT_CYCLING|RUNNING|UNKNOWN|ERROR|SINGULAR|NO_PROBLEM|NOT_INIT|OPTIMAL_UNSCALED_VIOLATIONS)'
